@@ -21,7 +21,8 @@ RULE = ("random mementos: time (aware with whole-minute offsets incl. UTC, occas
         "every result type, runner dictionaries, correlation ids, content keys whose key part contains # / : "
         "and whose version is uuid-like or empty; each is encoded, dumped with json.dumps, loaded, decoded and "
         "compared; the document is validated against the wire schema; golden documents are decoded; "
-        "non-trivial = distinct mementos with >=1 non-scalar or typed (date/datetime/function) argument")
+        "non-trivial = distinct mementos with >=1 non-scalar or typed (date/datetime/function) argument"
+        "; round 16: every tenth eligible document is read once while its function is not defined in its module, then again (the local reference must come back)")
 ASSUMPTIONS = ["'plain JSON' = serialisable by json.dumps without a custom encoder and stable under load/dump; "
                "NaN/Infinity tokens are accepted because the property lists them in its domain",
                "references are compared by qualified name plus structural equality of partial arguments "
